@@ -629,6 +629,22 @@ func (r *rwRT) ruleOptOrder() {
 		if uses {
 			good := len(seq) >= 2 && seq[len(seq)-1] == "print" && strings.Count(got, "print") == 1 && strings.Contains(got, "cleanImports")
 			c.check(good, "OPT.ORDER", "file using seq", pos, "imports are cleaned and the optimisations run before the file is printed exactly once: "+got, "unexpected per-file sequence: "+got)
+			// an optimisation can drop the last use of an import (a reduced closure's parameter type):
+			// the clean-up must see the file as it will be printed
+			lastOpt, clean := -1, -1
+			for i, s := range seq {
+				switch s {
+				case "cleanImports":
+					clean = i
+				case "print":
+				default:
+					lastOpt = i
+				}
+			}
+			if good {
+				c.check(clean > lastOpt, "OPT.ORDER", "imports cleaned after the last optimisation", pos, "no optimisation pass runs between the import clean-up and printing: "+got,
+					"an optimisation pass runs after the import clean-up of the file being printed: a closure such as func(s fmt.Stringer) string { return describe(s) } reduced to describe leaves \"fmt\" imported and not used, the generated file does not build: "+got)
+			}
 		} else {
 			c.check(!strings.Contains(got, "print"), "OPT.ORDER", "file not using seq", pos, "a rewritten file that does not use seq is not written to the destination (e.g. a co file that only blank-imports the API)", "a file that does not use seq is printed: an extra generated file appears in the package: "+got)
 		}
